@@ -1,6 +1,6 @@
 (* C05 - property theorems only.  Each is closed by `exact` of a lemma of C05_Proofs.v / C05_HalfClose.v / C05_Delay.v. *)
 From Coq Require Import List NArith Bool.
-From Dae Require Import C05_Spec C05_Model C05_Proofs C05_HCDefs C05_HalfClose C05_Delay.
+From Dae Require Import C05_Spec C05_Model C05_Proofs C05_HCDefs C05_HalfClose C05_Delay C05_PoolModel C05_PoolProofs.
 From Dae.gen Require Import C05_Extracted.
 Import ListNotations.
 Open Scope N_scope.
@@ -76,6 +76,39 @@ Theorem C05_detection_delay_bounded :
     /\ now0 <= ps_now ps.
 Proof. exact delay_bounded_proof. Qed.
 Print Assumptions C05_detection_delay_bounded.
+
+(* Buffer ownership (C05_PoolModel): the prologue over the process-wide probe-buffer pool.  The result of a
+   connection's prologue does not depend on the pool it started with, and whatever any other connections do to
+   the pool afterwards (h_later: ANY later pool state, hence every interleaving of any number of other prologues
+   and relays), the relay finds exactly the wrapper stack - and so exactly the held bytes - that this
+   connection's own reads produced: nothing it holds shares storage with a buffer that went back to the pool. *)
+Theorem C05_prefix_private :
+  forall p s0 now0 h h_later,
+    let '(ps, _, parked) := prologue_h false p s0 now0 h in
+    ps = prologue p s0 now0 /\ stack_at_relay h_later ps parked = ps_conn (prologue p s0 now0).
+Proof. exact prefix_private_proof. Qed.
+Print Assumptions C05_prefix_private.
+
+(* k connections probed one after the other over one pool, all relays starting afterwards: every connection
+   gets the stack of its single-connection prologue (so the single-connection theorems above apply to each). *)
+Theorem C05_connections_independent :
+  forall conns h,
+    stacks_at_relay false conns h = map (fun c => ps_conn (prologue (fst c) (snd c) 0)) conns.
+Proof. exact connections_independent_proof. Qed.
+Print Assumptions C05_connections_independent.
+
+(* The model variant that keeps a slice of the pooled buffer (prefetched = buf[:n:n]) is refuted: the second
+   connection's probe overwrites the first connection's parked prefix. *)
+Theorem C05_prefix_alias_refuted : ~ connections_independent_stmt true.
+Proof. exact alias_refuted_proof. Qed.
+Print Assumptions C05_prefix_alias_refuted.
+
+Example C05_nonvacuous_alias_witness :
+  map (fun o => match o with Some c => pending c | None => [] end) (stacks_at_relay true w_conns (mkHeap [] []))
+  = [firstn 16 w_socks; firstn 16 w_socks]
+  /\ map (fun o => match o with Some c => pending c | None => [] end) (stacks_at_relay false w_conns (mkHeap [] []))
+  = [firstn 16 w_ssh16; firstn 16 w_socks].
+Proof. exact alias_witness_bytes. Qed.
 
 (* Non-vacuity / regression examples: the inputs that refuted the full statements before the repairs. *)
 Example C05_nonvacuous_port53_fallback :
